@@ -178,8 +178,7 @@ theorem lane_success_sound (f : ℚ → ℚ) (lo hi tol eps : ℚ) (maxIter : Na
     rw [if_neg h]
     have hsc : f lo * f hi ≤ 0 := by
       have hq : (start f lo hi).fa * (start f lo hi).fb = f lo * f hi := start_prod f lo hi
-      simp only [lit'_rat, Nat.cast_zero, not_le] at h
-      rw [hq] at h; exact le_of_lt h
+      rw [signC_mul_nonneg_iff, not_le, hq] at h; exact le_of_lt h
     have hinv := run_inv f lo hi (xtolUsed tol eps lo hi) (maxIter + 1) hsc
     simp only [Bool.or_eq_true, decide_eq_true_eq, absC_rat] at hs ⊢
     rcases hs with h1 | h2
@@ -193,8 +192,8 @@ theorem lane_sign_change_success (f : ℚ → ℚ) (lo hi tol eps : ℚ) (maxIte
     (hsc : f lo * f hi < 0) (hcap : (lane f lo hi tol eps maxIter).iters < maxIter + 1) :
     (lane f lo hi tol eps maxIter).success = true := by
   have hq : (start f lo hi).fa * (start f lo hi).fb = f lo * f hi := start_prod f lo hi
-  have hbr : ¬ ((lit 0 : ℚ) ≤ (start f lo hi).fa * (start f lo hi).fb) := by
-    simp only [lit'_rat, Nat.cast_zero, not_le]; rw [hq]; exact hsc
+  have hbr : ¬ ((0 : Int) ≤ signC (start f lo hi).fa * signC (start f lo hi).fb) := by
+    rw [signC_mul_nonneg_iff, not_le, hq]; exact hsc
   have hinv := run_inv f lo hi (xtolUsed tol eps lo hi) (maxIter + 1) (le_of_lt hsc)
   have hex := run_exit f lo hi (xtolUsed tol eps lo hi) (maxIter + 1) (by omega)
   have hz := run_fs_zero f lo hi (xtolUsed tol eps lo hi) (maxIter + 1)
